@@ -183,11 +183,34 @@ func c13Scenarios(tier string) []e1lib.Scenario {
 			}
 		}
 	}
+	// operation counts above ten (and not multiples of ten) over a longer interval, whatever slices an implementation may cut it into:
+	// saturated consumer, half-interval pace, and one long idle period before a burst
+	for _, ops := range []int{11, 15, 25} {
+		if tier == "quick" && ops == 25 {
+			continue
+		}
+		const J = 40
+		for cp := 0; cp <= 1; cp++ {
+			k := 2*ops + cp + 3
+			for _, g := range []int{0, J / 10, J / 2} {
+				gaps := make([]int, k)
+				for i := range gaps {
+					gaps[i] = g
+				}
+				add(timed.Cfg{Kind: "throttle", Ops: ops, Interval: J, Cap: cp, K: k, ConsGaps: gaps, CancelAt: -1})
+			}
+			for _, j := range []int{0, 1, ops, ops + 1} {
+				gaps := make([]int, k)
+				gaps[j] = 10 * J
+				add(timed.Cfg{Kind: "throttle", Ops: ops, Interval: J, Cap: cp, K: k, ConsGaps: gaps, CancelAt: -1})
+			}
+		}
+	}
 	return out
 }
 
 func propC13() drv.Property {
 	return table("C13",
-		"one case = Throttling x ops 1..3 (4 in thorough) x interval 4 ticks x input capacity c 0..2 x k = 2*ops+c+3 elements (more than the window bound) x producer gap {0, I/2, I, 3I} x consumer schedule (constant pace {0, I/2, I}; or take j elements, stay idle for G in {I/2, I, I+1, 2I, 10I}, then burst, for every j; thorough: two idle periods) x cancel at grid points; virtual clock, every interleaving at equal instants explored; the largest window count observed per (ops, c) is reported next to the bound 2*ops+1+c (maxima) so that a vacuous pass is visible",
+		"one case = Throttling x ops 1..3 (4 in thorough) x interval 4 ticks x input capacity c 0..2 x k = 2*ops+c+3 elements (more than the window bound) x producer gap {0, I/2, I, 3I} x consumer schedule (constant pace {0, I/2, I}; or take j elements, stay idle for G in {I/2, I, I+1, 2I, 10I}, then burst, for every j; thorough: two idle periods) x cancel at grid points; plus ops 11, 15 (25 in thorough) over an interval of 40 ticks at paces {0, I/10, I/2} and with one idle period of 10 intervals; virtual clock, every interleaving at equal instants explored; the largest window count observed per (ops, c) is reported next to the bound 2*ops+1+c (maxima) so that a vacuous pass is visible",
 		append(commonAssumptions, "time is the virtual clock of rt (advances only when no thread can run); the latency upper bound is a statement about that ideal clock"), c13Scenarios)
 }
